@@ -218,7 +218,7 @@ class C16(Check):
         self.outside = ['"reproduces the R reference": Rscript is not installed and R is not parsed; a float transcription is compared with the real code at the published parameters (witness)',
                         'psi_s values other than the listed ones', 'accuracy of scipy.stats.norm / pow']
         exp = symx.explore(harness_T, {}, name='peatclsm_transmissivity')
-        self.absorb(exp, need_paths=3)
+        self.absorb(exp, need_paths=2)
         import multiprocessing as mp
         tasks = []
         for ps in ([] if quick else psis):
